@@ -258,6 +258,8 @@ func (f *fmtState) renderArg(spec string, verb rune, arg value) {
 			f.out = append(f.out, formatIntSym(f.fr, x, width)...)
 		case verb == 'c' && plain:
 			f.out = append(f.out, encodeRuneSym(f.fr, mkConv(x, 32, true))...)
+		case verb == 'x' && plain:
+			f.out = append(f.out, formatHexSym(f.fr, x)...)
 		default:
 			f.out = append(f.out, opaqueMark{})
 		}
@@ -517,4 +519,31 @@ func containsSym(v value, depth int) bool {
 		}
 	}
 	return false
+}
+
+// formatHexSym renders a non-negative symbolic integer in lower-case hex (forks on digit count).
+func formatHexSym(fr *frame, x *Term) []value {
+	ex := fr.i.ex
+	u := mkConv(x, 64, false)
+	if x.signed {
+		if ex.decide(mkLt(mkConv(x, 64, true), mkConst(0, 64, true))) {
+			return []value{opaqueMark{}}
+		}
+	}
+	n := 1
+	for n < 16 {
+		if ex.decide(mkLt(u, mkConst(uint64(1)<<(4*uint(n)), 64, false))) {
+			break
+		}
+		n++
+	}
+	out := make([]value, n)
+	for i := 0; i < n; i++ {
+		d := mk(OpAnd, 64, false, mk(OpShr, 64, false, u, mkConst(uint64(4*i), 64, false)), mkConst(15, 64, false))
+		d8 := mkConv(d, 8, false)
+		isLetter := mkLt(mkConst(9, 8, false), d8)
+		ch := mkIte(isLetter, mk(OpAdd, 8, false, d8, mkConst('a'-10, 8, false)), mk(OpAdd, 8, false, d8, mkConst('0', 8, false)))
+		out[n-1-i] = termToValue(ch)
+	}
+	return out
 }
